@@ -268,7 +268,10 @@ func (c *Check) minimise(v ev.Violation) ev.Violation {
 // ParRange calls fn(w, i) for i in [0,n) from `workers` goroutines in chunks.
 func (c *Check) ParRange(p *ev.Part, n int64, fn func(w *Worker, i int64)) {
 	var next int64
-	const chunk = 2048
+	chunk := int64(2048)
+	if n < 400_000 {
+		chunk = 1 + n/int64(workers*64)
+	}
 	var wg sync.WaitGroup
 	for k := 0; k < workers; k++ {
 		wg.Add(1)
@@ -285,7 +288,7 @@ func (c *Check) ParRange(p *ev.Part, n int64, fn func(w *Worker, i int64)) {
 				if hi > n {
 					hi = n
 				}
-				for i := lo; i < hi; i++ {
+				for i := lo; i < hi && !w.Stopped(); i++ {
 					fn(w, i)
 				}
 			}
